@@ -545,16 +545,18 @@ def merge_file_level(
 
         old_value, field = fields[name]
 
+        # set the value before validating, since some validators
+        # normalise the value in-place (e.g. a list of url_schemes to a dict)
+        setattr(new, name, value)
         try:
             validate_field(new, field, value)
         except Exception as exc:
+            setattr(new, name, old_value)
             warning(MystWarnings.MD_TOPMATTER, str(exc))
             continue
 
         if field.metadata.get("merge_topmatter"):
-            value = {**old_value, **value}
-
-        setattr(new, name, value)
+            setattr(new, name, {**old_value, **getattr(new, name)})
 
     return new
 
